@@ -5,7 +5,7 @@ SPECIFICATION Spec
 CONSTANTS
   Users = {"u1", "u2"}
   Chans = {"c1"}
-  Bodies = {"A", "B", "C", "R", "Xtype"}
+  Bodies = {"A", "Ab", "B", "Cn", "R", "Xtype"}
   HdrKinds = {"cur", "curHex", "stale", "future", "garbage"}
   Vias = {"d", "b1:a1"}
   Creds = {"o1"}
@@ -15,6 +15,7 @@ CONSTANTS
   MaxSnap = 1
   MaxRestart = 1
   MaxInject = 1
+  MaxBattery = 1
   MaxCfg = 2
   FixedF5 = FALSE
   RecordHist = FALSE
